@@ -201,10 +201,12 @@ PROPS = {
         B("hostile", 500, 3000, tags=[]), B("mixed", 300, 1800, tags=[]), B("hostile", 150, 900, modes="1", tags=[])]},
     "C02": {"tags": SCREEN, "ppref": ("C02",), "batches": [
         B("mixed", 150, 900, modes="1"),
-        B("mixed", 500, 3000), B("hostile", 300, 1800, tags=[2]), B("stepall", 200, 1200, step=True)], "extra": [span_engine]},
+        B("mixed", 500, 3000), B("hostile", 300, 1800, tags=[2]), B("stepall", 200, 1200, step=True),
+        B("c18", 200, 1200)], "extra": [span_engine]},
     "C03": {"tags": SCREEN, "ppref": ("C03", "C02"), "batches": [
         B("c03", 150, 900, step=True, kinds_wanted=[1], modes="1"),
-        B("c03", 400, 2400, step=True, kinds_wanted=[1])]},
+        B("c03", 400, 2400, step=True, kinds_wanted=[1]),
+        B("c08", 150, 900)]},   # the same writes with reads cut anywhere, also inside characters
     "C04": {"tags": [2, 3, 7], "ppref": ("C04",), "batches": [
         B("c04", 400, 2400, step=True, kinds_wanted=[2, 3])]},
     "C05": {"tags": SCREEN, "ppref": ("C05",), "batches": [
@@ -213,7 +215,7 @@ PROPS = {
         B("c06", 400, 2400, step=True, kinds_wanted=[5, 14, 2])]},
     "C07": {"tags": [2, 3, 7], "ppref": ("C07",), "batches": [
         B("c07", 400, 2400, step=True, kinds_wanted=[6, 1, 4, 5])]},
-    "C08": {"tags": ALL, "ppref": ("C08",), "batches": [B("c08", 400, 2400)]},
+    "C08": {"tags": ALL, "ppref": ("C08",), "batches": [B("c08", 400, 2400), B("c08", 150, 900, modes="1"), B("c08long", 40, 240, modes="01")]},
     "C09": {"tags": ALL, "ppref": ("C09",), "batches": [
         B("c09", 400, 2400, step=True, kinds_wanted=[10, 13])]},
     "C10": {"tags": [7, 8], "ppref": ("C10",), "batches": [B("stepall", 400, 2400, step=True), B("mixed", 200, 1200)]},
